@@ -28,7 +28,6 @@ func zzSetup() *Processor {
 	self.Url = "http://chf.example"
 	self.RatingCfg = &sm.Settings{OriginHost: "chf-rating", OriginRealm: "realm"}
 	self.AbmfCfg = &sm.Settings{OriginHost: "chf-abmf", OriginRealm: "realm"}
-	self.RecordSequenceNumber = make(map[string]int64)
 	factory.ChfConfig = &factory.Config{
 		Configuration: &factory.Configuration{
 			RfDiameter:   &factory.Diameter{Protocol: "tcp", HostIPv4: "127.0.0.1", Port: 3868, Tls: &factory.Tls{Pem: "rf.pem", Key: "rf.key"}},
